@@ -102,6 +102,18 @@ def es_value(es):
     return {'nan': np.nan, 'raise': 'raise', '-inf': -math.inf}.get(es, es)
 
 
+def es_arg(es):
+    """the error_score handed to the implementation: a finite floor in another valid numeric form (cycled): Python
+    float, numpy scalar types, 0-d array (element)"""
+    v = es_value(es)
+    if isinstance(v, float) and math.isfinite(v):
+        forms = [v, np.float64(v), np.float32(v) if float(np.float32(v)) == v else v,
+                 np.int64(v) if float(v).is_integer() else np.float64(v), np.array(v)[()], np.array(v)]
+        es_arg.k = getattr(es_arg, 'k', 0) + 1
+        return forms[es_arg.k % len(forms)]
+    return v
+
+
 SHARED_KW = {'multioutput': 'uniform_average'}     # one dict object reused across calls, as a cached scorer does
 
 
@@ -116,7 +128,7 @@ def run_score(c):
     before = dict(SHARED_KW)
     out = outcome(lambda: pykoop.score_trajectory(P, E, n_steps=c['n_steps'], discount_factor=float(c['gamma']),
                                                   regression_metric=metric, regression_metric_kw=kw,
-                                                  error_score=es_value(c['es']),
+                                                  error_score=es_arg(c['es']),
                                                   min_samples=c['m'], episode_feature=c['ep']))
     if set(SHARED_KW) != set(before):
         c['kw_mutated'] = sorted(set(SHARED_KW) - set(before))
@@ -287,7 +299,7 @@ def run(ctx):
         X = st.X_of(c)
         metric = {'mse': 'neg_mean_squared_error', 'mae': 'neg_mean_absolute_error'}[c['metric']]
         sc = pykoop.KoopmanPipeline.make_scorer(n_steps=c['n_steps'], discount_factor=float(c['gamma']),
-                                                regression_metric=metric, error_score=es_value(c['es']),
+                                                regression_metric=metric, error_score=es_arg(c['es']),
                                                 multistep=c['multistep'], relift_state=c['relift'])
         o = outcome(lambda: sc(kp, X))
         toks, _ = pipes.tokens(c['spec'], kp)
